@@ -1,6 +1,11 @@
 /-
   Lemmas/Header — the header scan (`headerStep` / `headerLoop` / `parseHeader`) over the header of a unified diff:
   `--- old`, `+++ new`, a range line, a first body line (helper lemmas for C11 / C01 at text level).
+
+  `headerStep` tests for "first body line after a unified range line" (`firstBodyLine`) BEFORE the keyword tests:
+  `headerStep_first'` needs nothing but that test, every other step lemma has its negation as a hypothesis
+  (`headerStep_late`), and `parseHeader_unified'` / `headerLoop_unified` no longer exclude a first body line that starts
+  with `--- ` / `+++ `.  `parseHeader_unified` / `headerStep_first` keep their old signatures (wrappers).
 -/
 import PatchModel.Lemmas.Inert
 import PatchModel.Lemmas.Unified
@@ -83,6 +88,26 @@ theorem bodyStart_head {l : Bytes} (h : bodyStart l) : l.head? = some 32 ∨ l.h
   · exact Or.inr (Or.inr ((startsWith_one l _ _ str_minus).1 h))
   · exact Or.inl ((startsWith_one l _ _ str_sp).1 h)
 
+/-- a line that starts with `--- ` starts with `-` … -/
+theorem bodyStart_of_minus4 {l : Bytes} (h : startsWith l "--- " = true) : bodyStart l := by
+  unfold startsWith at h
+  rw [str_new4] at h
+  cases l with
+  | nil => simp [List.isPrefixOf] at h
+  | cons a r =>
+    simp only [List.isPrefixOf, Bool.and_eq_true, beq_iff_eq] at h
+    exact Or.inr (Or.inl ((startsWith_one _ _ _ str_minus).2 (by rw [← h.1]; rfl)))
+
+/-- … and one that starts with `+++ ` starts with `+` -/
+theorem bodyStart_of_plus4 {l : Bytes} (h : startsWith l "+++ " = true) : bodyStart l := by
+  unfold startsWith at h
+  rw [str_plus4] at h
+  cases l with
+  | nil => simp [List.isPrefixOf] at h
+  | cons a r =>
+    simp only [List.isPrefixOf, Bool.and_eq_true, beq_iff_eq] at h
+    exact Or.inl ((startsWith_one _ _ _ str_plus).2 (by rw [← h.1]; rfl))
+
 /-- a first body line that is no `--- ` / `+++ ` line starts with none of the keywords -/
 theorem noKeyword_of_bodyStart {l : Bytes} (h : bodyStart l) (hm : ¬ startsWith l "--- ") (hp : ¬ startsWith l "+++ ") :
     NoKeyword l := by
@@ -97,8 +122,78 @@ theorem noKeyword_of_bodyStart {l : Bytes} (h : bodyStart l) (hm : ¬ startsWith
 /-- the state at the start of an iteration: one more line, "looks like" marker reset -/
 abbrev entered (st : HState) : HState := { st with lines := st.lines + 1, thisLooks := .unknown }
 
-/-- a `--- name` line is stored as the NEW name (the quirk of `parse_patch_header`; swapped back on detection) -/
-theorem headerStep_minus (st : HState) (r : Bytes) (strip : Int) :
+/-- the test `headerStep` makes FIRST: the line before looked like a unified range, this line starts like a line of a
+    hunk body, and the format is unknown or unified -/
+def firstBodyLine (st : HState) (l : Bytes) : Prop :=
+  (st.patch.format = .unknown ∨ st.patch.format = .unified) ∧ st.thisLooks = .unified ∧ bodyStart l
+
+/-- **the line after a unified range line that starts like a body line** — whatever else it looks like (`--- x`, `+++ y`,
+    in or outside a git section): the scan stops, the format is unified, the two names / time stamps are swapped back and
+    the first hunk is marked as found -/
+theorem headerStep_first' (st : HState) (l : Bytes) (strip : Int)
+    (hf : st.patch.format = .unknown ∨ st.patch.format = .unified)
+    (hl : st.thisLooks = .unified) (hb : bodyStart l) :
+    headerStep st l strip =
+      .ok ({ entered st with
+              patch := { st.patch with oldPath := st.patch.newPath, newPath := st.patch.oldPath,
+                                       oldTime := st.patch.newTime, newTime := st.patch.oldTime, format := .unified },
+              foundFirstHunk := true }, false) := by
+  unfold bodyStart at hb
+  rw [Cost.headerStep_eq]
+  simp only [hf, hl, hb, and_self, if_true]
+
+/-- when that test fails `headerStep` goes on with the keyword tests -/
+theorem headerStep_late (st : HState) (l : Bytes) (strip : Int) (hn : ¬ firstBodyLine st l) :
+    headerStep st l strip =
+      (let last := st.thisLooks
+       let st := entered st
+       let p := st.patch
+       match (match (if last != .context then consumeStr (str "*** ") l else none) with
+              | some r => some r
+              | none => consumeStr (str "+++ ") l) with
+       | some r =>
+         (parseFileLine r strip).map fun res =>
+           let (pa, ti) := assignFileLine res p.oldTime
+           ({ st with patch := { p with oldPath := pa, oldTime := ti } }, true)
+       | none =>
+       match consumeStr (str "--- ") l with
+       | some r =>
+         (parseFileLine r strip).map fun res =>
+           let (pa, ti) := assignFileLine res p.newTime
+           ({ st with patch := { p with newPath := pa, newTime := ti } }, true)
+       | none =>
+       match consumeStr (str "Index: ") l with
+       | some r => (parseFileLine r strip).map fun res => ({ st with patch := { p with indexPath := res.1 } }, true)
+       | none =>
+       match consumeStr (str "Prereq: ") l with
+       | some r => (parseFileLine r strip).map fun res => ({ st with patch := { p with prerequisite := res.1 } }, true)
+       | none =>
+       match consumeStr (str "diff --git ") l with
+       | some r =>
+         if st.isGit then .ok ({ st with ltfh := st.lines, shouldParseBody := false }, false)
+         else (parseGitHeaderName r strip).map fun name =>
+           ({ st with patch := { p with oldPath := name, newPath := name, format := .unified }, isGit := true,
+                      ltfh := st.lines + 1 }, true)
+       | none => Cost.hdrTail last st l strip) := by
+  unfold firstBodyLine bodyStart at hn
+  rw [Cost.headerStep_eq]
+  simp only [if_neg hn]
+  rfl
+
+theorem not_firstBodyLine_of_looks {st : HState} {l : Bytes} (h : st.thisLooks ≠ .unified) : ¬ firstBodyLine st l :=
+  fun hh => h hh.2.1
+
+theorem not_firstBodyLine_of_head {st : HState} {l : Bytes}
+    (h32 : l.head? ≠ some 32) (h43 : l.head? ≠ some 43) (h45 : l.head? ≠ some 45) : ¬ firstBodyLine st l := by
+  intro hh
+  rcases bodyStart_head hh.2.2 with e | e | e
+  · exact h32 e
+  · exact h43 e
+  · exact h45 e
+
+/-- a `--- name` line (not directly after a unified range line: there it is the removal of a line `-- name`) is stored as
+    the NEW name (the quirk of `parse_patch_header`; swapped back on detection) -/
+theorem headerStep_minus (st : HState) (r : Bytes) (strip : Int) (hl : ¬ firstBodyLine st (str "--- " ++ r)) :
     headerStep st (str "--- " ++ r) strip =
       (parseFileLine r strip).map fun res =>
         ({ entered st with patch := { st.patch with newPath := res.1,
@@ -107,26 +202,39 @@ theorem headerStep_minus (st : HState) (r : Bytes) (strip : Int) :
     consumeStr_none_of_startsWith (startsWith_false_of_head _ _ _ _ str_old4 (by rw [str_new4]; simp))
   have h2 : consumeStr (str "+++ ") (str "--- " ++ r) = none :=
     consumeStr_none_of_startsWith (startsWith_false_of_head _ _ _ _ str_plus4 (by rw [str_new4]; simp))
-  rw [Cost.headerStep_eq]
+  rw [headerStep_late _ _ _ hl]
   simp only [h1, h2, ite_self, Unified.consumeStr_append]
   rfl
 
-/-- a `+++ name` line is stored as the OLD name -/
-theorem headerStep_plus (st : HState) (r : Bytes) (strip : Int) :
+/-- `headerStep_minus` as it was stated before the reordering of `headerStep` (without `hl`) is FALSE now, and so is
+    `headerLoop_unified` for a start state with `thisLooks = .unified`: directly after a line that looked like a unified
+    range, `--- a` is the first line of the hunk body (the scan stops, nothing is stored as a name) -/
+example : ¬ ∀ (st : HState) (r : Bytes) (strip : Int),
+    headerStep st (str "--- " ++ r) strip =
+      (parseFileLine r strip).map fun res =>
+        ({ entered st with patch := { st.patch with newPath := res.1,
+                                                     newTime := (match res.2 with | some t => t | none => st.patch.newTime) } }, true) := by
+  intro h
+  have h1 := h { par := { s := { rest := [] } }, patch := {}, thisLooks := .unified } [97] 0
+  rw [headerStep_first' _ _ _ (Or.inl rfl) rfl (bodyStart_of_minus4 (startsWith_append _ _))] at h1
+  cases hx : parseFileLine [97] 0 <;> rw [hx] at h1 <;> simp [Except.map] at h1
+
+/-- a `+++ name` line (not directly after a unified range line) is stored as the OLD name -/
+theorem headerStep_plus (st : HState) (r : Bytes) (strip : Int) (hl : ¬ firstBodyLine st (str "+++ " ++ r)) :
     headerStep st (str "+++ " ++ r) strip =
       (parseFileLine r strip).map fun res =>
         ({ entered st with patch := { st.patch with oldPath := res.1,
                                                      oldTime := (match res.2 with | some t => t | none => st.patch.oldTime) } }, true) := by
   have h1 : consumeStr (str "*** ") (str "+++ " ++ r) = none :=
     consumeStr_none_of_startsWith (startsWith_false_of_head _ _ _ _ str_old4 (by rw [str_plus4]; simp))
-  rw [Cost.headerStep_eq]
+  rw [headerStep_late _ _ _ hl]
   simp only [h1, ite_self, Unified.consumeStr_append]
   rfl
 
-/-- a line without keyword goes to the tail of `headerStep` -/
-theorem headerStep_tail (st : HState) (l : Bytes) (strip : Int) (f : NoKeyword l) :
+/-- a line without keyword which is not the first body line goes to the tail of `headerStep` -/
+theorem headerStep_tail (st : HState) (l : Bytes) (strip : Int) (f : NoKeyword l) (hn : ¬ firstBodyLine st l) :
     headerStep st l strip = Cost.hdrTail st.thisLooks (entered st) l strip := by
-  rw [Cost.headerStep_eq]
+  rw [headerStep_late _ _ _ hn]
   simp only [consumeStr_none_of_startsWith f.old4, consumeStr_none_of_startsWith f.plus4,
     consumeStr_none_of_startsWith f.new4, consumeStr_none_of_startsWith f.index,
     consumeStr_none_of_startsWith f.prereq, consumeStr_none_of_startsWith f.git, ite_self]
@@ -138,25 +246,21 @@ theorem headerStep_range (st : HState) (l : Bytes) (strip : Int) (f : NoKeyword 
     (hp : parseUnifiedRange st.hunk l = (true, h')) :
     headerStep st l strip =
       .ok ({ entered st with hunk := h', thisLooks := .unified, ltfh := st.lines + 1 }, true) := by
-  rw [headerStep_tail st l strip f]
+  rw [headerStep_tail st l strip f (fun hh => hb hh.2)]
   unfold Cost.hdrTail Cost.hdrUnified
-  unfold bodyStart at hb
-  simp only [hg, hf, hb, hp, if_true, if_false, Bool.false_eq_true]
+  simp only [hg, hf, hp, if_true, if_false, Bool.false_eq_true]
 
-/-- the line after a unified range line that starts like a body line: the scan stops, the format is unified, the
-    two names / time stamps are swapped back and the first hunk is marked as found -/
-theorem headerStep_first (st : HState) (l : Bytes) (strip : Int) (f : NoKeyword l) (hg : st.isGit = false)
+/-- `headerStep_first'` with the hypotheses that were needed while the test came after the keyword tests (kept for
+    callers that pass them) -/
+theorem headerStep_first (st : HState) (l : Bytes) (strip : Int) (_f : NoKeyword l) (_hg : st.isGit = false)
     (hf : st.patch.format = .unknown ∨ st.patch.format = .unified)
     (hl : st.thisLooks = .unified) (hb : bodyStart l) :
     headerStep st l strip =
       .ok ({ entered st with
               patch := { st.patch with oldPath := st.patch.newPath, newPath := st.patch.oldPath,
                                        oldTime := st.patch.newTime, newTime := st.patch.oldTime, format := .unified },
-              foundFirstHunk := true }, false) := by
-  rw [headerStep_tail st l strip f]
-  unfold Cost.hdrTail Cost.hdrUnified
-  unfold bodyStart at hb
-  simp only [hg, hf, hl, hb, if_true, if_false, Bool.false_eq_true, and_self]
+              foundFirstHunk := true }, false) :=
+  headerStep_first' st l strip hf hl hb
 
 /-! ### the header loop over the header of a unified diff -/
 
@@ -198,9 +302,10 @@ def rangeOk (h : Hunk) : Prop :=
 theorem headerLoop_unified (strip : Int) (st : HState) (old new oldt newt : Bytes) (h : Hunk) (first : Line)
     (more : List Line) (fuel : Nat)
     (hold : plainName old) (hnew : plainName new) (hot : oldt ≠ []) (hnt : newt ≠ []) (hr : rangeOk h)
-    (hb : bodyStart first.content) (hm : ¬ startsWith first.content "--- ") (hp : ¬ startsWith first.content "+++ ")
+    (hb : bodyStart first.content)
     (hterm : first.newline ≠ .none)
     (hg : st.isGit = false) (hf : st.patch.format = .unknown ∨ st.patch.format = .unified)
+    (hlooks : st.thisLooks ≠ .unified)
     (heof : st.par.s.eof = false) (hbad : st.par.s.bad = false)
     (hrest : st.par.s.rest = ⟨str "--- " ++ old ++ [TAB] ++ oldt, .lf⟩ :: ⟨str "+++ " ++ new ++ [TAB] ++ newt, .lf⟩ ::
                                ⟨Unified.rangeText h, .lf⟩ :: first :: more) :
@@ -212,7 +317,7 @@ theorem headerLoop_unified (strip : Int) (st : HState) (old new oldt newt : Byte
                     hunk := { st.hunk with old := h.old, new := h.new }, ltfh := st.lines + 3,
                     foundFirstHunk := true } := by
   obtain ⟨⟨⟨r0, e0, b0⟩, n0⟩, p, tl, li, g, sb, hk, lt⟩ := st
-  simp only at hg hf heof hbad hrest
+  simp only at hg hf heof hbad hrest hlooks
   subst hg heof hbad hrest
   have hfl1 := Names.file_line_plain old oldt strip hold.1 hold.2.2 hold.2.1
   have hfl2 := Names.file_line_plain new newt strip hnew.1 hnew.2.2 hnew.2.1
@@ -223,14 +328,16 @@ theorem headerLoop_unified (strip : Int) (st : HState) (old new oldt newt : Byte
   rw [show fuel + 4 = (fuel + 3) + 1 from rfl,
     headerLoop_step strip _ _ _ ⟨_, .lf⟩ _ rfl rfl rfl (by simp) true (by
       simp only []
-      rw [show str "--- " ++ old ++ [TAB] ++ oldt = str "--- " ++ (old ++ TAB :: oldt) by simp, headerStep_minus, hfl1]
+      rw [show str "--- " ++ old ++ [TAB] ++ oldt = str "--- " ++ (old ++ TAB :: oldt) by simp,
+        headerStep_minus _ _ _ (not_firstBodyLine_of_looks hlooks), hfl1]
       rfl)]
   simp only [if_true]
   -- line 2
   rw [show fuel + 3 = (fuel + 2) + 1 from rfl,
     headerLoop_step strip _ _ _ ⟨_, .lf⟩ _ rfl rfl rfl (by simp) true (by
       simp only []
-      rw [show str "+++ " ++ new ++ [TAB] ++ newt = str "+++ " ++ (new ++ TAB :: newt) by simp, headerStep_plus, hfl2]
+      rw [show str "+++ " ++ new ++ [TAB] ++ newt = str "+++ " ++ (new ++ TAB :: newt) by simp,
+        headerStep_plus _ _ _ (not_firstBodyLine_of_looks (by simp)), hfl2]
       rfl)]
   simp only [if_true]
   -- line 3
@@ -241,7 +348,7 @@ theorem headerLoop_unified (strip : Int) (st : HState) (old new oldt newt : Byte
   simp only [if_true]
   -- line 4
   rw [headerLoop_step strip _ _ _ first _ rfl rfl rfl hterm false
-      (headerStep_first _ _ strip (noKeyword_of_bodyStart hb hm hp) rfl hf rfl hb)]
+      (headerStep_first' _ _ strip hf rfl hb)]
   simp only [Bool.false_eq_true, if_false, stripped]
 
 /-! ### `parseHeader` on (filler +) the header of a unified diff -/
@@ -268,11 +375,13 @@ theorem skipLines_terminated (ls : List Line) (rest : List Line) (par : Parser)
 def inferredOp (h : Hunk) : Operation :=
   if h.new.start = 0 then .delete else if h.old.start = 0 then .add else .change
 
-theorem parseHeader_unified (strip : Int) (par : Parser) (pt : Patch) (filler : List Line)
+/-- **the header of a unified diff (after inert filler) is read back**, whatever the first line of the first hunk looks
+    like beyond its first byte — `--- x` (the removal of `-- x`) and `+++ y` included -/
+theorem parseHeader_unified' (strip : Int) (par : Parser) (pt : Patch) (filler : List Line)
     (old new oldt newt : Bytes) (h : Hunk) (first : Line) (more : List Line)
     (hin : ∀ l ∈ filler, inertLine l.content = true) (hft : ∀ l ∈ filler, l.newline ≠ .none)
     (hold : plainName old) (hnew : plainName new) (hot : oldt ≠ []) (hnt : newt ≠ []) (hr : rangeOk h)
-    (hb : bodyStart first.content) (hm : ¬ startsWith first.content "--- ") (hp : ¬ startsWith first.content "+++ ")
+    (hb : bodyStart first.content)
     (hterm : first.newline ≠ .none)
     (hf : pt.format = .unknown ∨ pt.format = .unified) (hop : pt.operation = .change)
     (heof : par.s.eof = false) (hbad : par.s.bad = false)
@@ -291,7 +400,8 @@ theorem parseHeader_unified (strip : Int) (par : Parser) (pt : Patch) (filler : 
     (Or.inr calm_unknown) heof hbad T hrest (more.length + 2 + 4)
   have hloop := headerLoop_unified strip
     (advance { par := par, patch := pt } T filler.length (if filler = [] then ({ par := par, patch := pt } : HState).thisLooks else .unknown))
-    old new oldt newt h first more (more.length + 2) hold hnew hot hnt hr hb hm hp hterm rfl hf heof hbad hT.symm
+    old new oldt newt h first more (more.length + 2) hold hnew hot hnt hr hb hterm rfl hf
+    (by simp only [advance]; split <;> simp) heof hbad hT.symm
   have hlen : par.s.rest.length + 2 = (more.length + 2 + 4) + filler.length := by
     rw [hrest, ← hT]; simp only [List.length_append, List.length_cons]; omega
   unfold parseHeader
@@ -316,6 +426,28 @@ theorem parseHeader_unified (strip : Int) (par : Parser) (pt : Patch) (filler : 
   · rfl
   · split <;> rfl
 
+/-- `parseHeader_unified'` with the two hypotheses on the first body line that were needed while a `--- ` / `+++ ` line
+    after the range line was taken for a file header (kept, with the old signature, for callers that pass them) -/
+theorem parseHeader_unified (strip : Int) (par : Parser) (pt : Patch) (filler : List Line)
+    (old new oldt newt : Bytes) (h : Hunk) (first : Line) (more : List Line)
+    (hin : ∀ l ∈ filler, inertLine l.content = true) (hft : ∀ l ∈ filler, l.newline ≠ .none)
+    (hold : plainName old) (hnew : plainName new) (hot : oldt ≠ []) (hnt : newt ≠ []) (hr : rangeOk h)
+    (hb : bodyStart first.content) (_hm : ¬ startsWith first.content "--- ") (_hp : ¬ startsWith first.content "+++ ")
+    (hterm : first.newline ≠ .none)
+    (hf : pt.format = .unknown ∨ pt.format = .unified) (hop : pt.operation = .change)
+    (heof : par.s.eof = false) (hbad : par.s.bad = false)
+    (hrest : par.s.rest = filler ++ ⟨str "--- " ++ old ++ [TAB] ++ oldt, .lf⟩ :: ⟨str "+++ " ++ new ++ [TAB] ++ newt, .lf⟩ ::
+                               ⟨Unified.rangeText h, .lf⟩ :: first :: more) :
+    parseHeader par pt strip =
+      .ok (true,
+           { pt with format := .unified, operation := inferredOp h, oldPath := stripped old strip,
+                     newPath := stripped new strip, oldTime := oldt, newTime := newt },
+           { linesTillFirstHunk := filler.length + 3, format := .unified },
+           { s := { rest := ⟨Unified.rangeText h, .lf⟩ :: first :: more, eof := false, bad := false },
+             lineNo := par.lineNo + (filler.length + 2) }) :=
+  parseHeader_unified' strip par pt filler old new oldt newt h first more hin hft hold hnew hot hnt hr hb hterm hf hop
+    heof hbad hrest
+
 /-! ### a section that starts with a `diff --git` line -/
 
 /-- the first `diff --git` line of a section: the scan enters git mode, both names are the name on that line, and the line
@@ -336,15 +468,17 @@ theorem headerStep_git_first (st : HState) (r : Bytes) (strip : Int) (hg : st.is
     consumeStr_none_of_startsWith (startsWith_false_of_head _ _ _ _ str_index (by rw [hd]; decide))
   have h5 : consumeStr (str "Prereq: ") (str "diff --git " ++ r) = none :=
     consumeStr_none_of_startsWith (startsWith_false_of_head _ _ _ _ str_prereq (by rw [hd]; decide))
-  rw [Cost.headerStep_eq]
+  rw [headerStep_late _ _ _ (not_firstBodyLine_of_head (by rw [hd]; decide) (by rw [hd]; decide) (by rw [hd]; decide))]
   simp only [h1, h2, h3, h4, h5, ite_self, Unified.consumeStr_append, hg, Bool.false_eq_true, if_false]
 
 theorem getLine_first (par : Parser) (l : Line) (r : List Line) (heof : par.s.eof = false) (hbad : par.s.bad = false)
-    (hrest : par.s.rest = l :: r) : ∃ par1, par.getLine = (some l, par1) := by
+    (hrest : par.s.rest = l :: r) : ∃ l' par1, par.getLine = (some l', par1) ∧ l'.content = l.content := by
   unfold Parser.getLine PStream.getLine
   by_cases hn : l.newline = .none
-  · exact ⟨_, by simp [heof, hbad, hrest, hn]; rfl⟩
-  · exact ⟨_, by simp [heof, hbad, hrest, hn]; rfl⟩
+  · refine ⟨⟨l.content, .lf⟩, { s := { par.s with rest := r, eof := true }, lineNo := par.lineNo + 1 }, ?_, rfl⟩
+    simp [heof, hbad, hrest, hn]
+  · refine ⟨l, { s := { par.s with rest := r }, lineNo := par.lineNo + 1 }, ?_, rfl⟩
+    simp [heof, hbad, hrest, hn]
 
 /-- **a section whose first line is a `diff --git` line**: if the header scan succeeds at all (the name on the line may be
     malformed), the result is a git patch, the `diff --git` line is part of the header and the parser is left strictly
@@ -357,9 +491,9 @@ theorem parseHeader_git_first (par : Parser) (pt : Patch) (strip : Int) (l : Lin
     p.format = .git ∧ info.format = .git ∧ 2 ≤ info.linesTillFirstHunk ∧ par'.s.rest.length < par.s.rest.length := by
   obtain ⟨st, hloop, _, _, _, _, hfmt⟩ := Cost.parseHeader_state par pt strip body p info par' h
   have hgit : st.isGit = true := by
-    obtain ⟨par1, hgl⟩ := getLine_first par l rest heof hbad hrest
+    obtain ⟨l', par1, hgl, hl'⟩ := getLine_first par l rest heof hbad hrest
     rw [headerLoop, show ({ par := par, patch := pt } : HState).par = par from rfl, hgl] at hloop
-    simp only [hl] at hloop
+    simp only [hl', hl] at hloop
     rw [headerStep_git_first _ _ _ rfl] at hloop
     cases hn : parseGitHeaderName r strip with
     | error e => rw [hn] at hloop; simp [Except.map] at hloop
